@@ -205,6 +205,27 @@ def whileLoop {σ : Type} : Nat → σ → (σ → Bool) → (σ → Option σ) 
       | some st' => whileLoop fuel st' cond body
     else some st
 
+/-- `for x in xs { body }` over a list value with the loop-carried variables `st`: the body goes on
+(`Step.next`) or leaves the FUNCTION with a result (`Step.ret`: `return`, a failed `?`); `none` = panic. -/
+def forEach {α σ ρ : Type} (xs : List α) (st : σ) (f : σ → α → Option (Step σ ρ)) : Option (LoopEnd σ ρ) :=
+  match xs with
+  | [] => some (.done st)
+  | x :: r =>
+    match f st x with
+    | none => none
+    | some (.next st') => forEach r st' f
+    | some (.brk st') => some (.done st')
+    | some (.ret v) => some (.ret v)
+
+/-- `xs.fold(init, |acc, x| body)` where the body may panic -/
+def foldM {α σ : Type} (xs : List α) (init : σ) (f : σ → α → Option σ) : Option σ :=
+  match xs with
+  | [] => some init
+  | x :: r =>
+    match f init x with
+    | none => none
+    | some s => foldM r s f
+
 /-- `x = &mut x[n..]` on a `mut x: &mut [u8]` parameter: the bytes left behind and the new view
 (`n > x.len()` panics) -/
 def splitAt (bs : Bytes) (n : UInt64) : Option (Bytes × Bytes) :=
